@@ -1134,20 +1134,23 @@ class IntFlag(Adapter):
 
     def encode(self, val: Union[int, Iterable], ctx: Optional[ParseContext]) -> Any:
         if isinstance(val, int):
-            return val
+            return int(val)
 
         # Must be an iterable of strings or enum vals then
         new_val = 0
         for v in val:
             if isinstance(v, str):
                 v = self.flag_cls[v]
-            new_val |= v
+            # plain int arithmetic: IntFlag.__or__ would fold a negative left-over onto the known bits
+            new_val |= int(v)
         return new_val
 
     def decode(self, val: Any, ctx: Optional[ParseContext], pod: bool = False) -> Any:
         if pod:
             return dtypes.flags_to_pod(self.flag_cls, val)
-        return self.flag_cls(val)
+        flags = self.flag_cls(val)
+        # enum.IntFlag folds negative values (signed wire types) onto the known bits; keep the int then
+        return flags if int(flags) == val else val
 
     def default_value(self) -> Any:
         return lambda: self.flag_cls(0)
